@@ -42,6 +42,9 @@ type blob struct {
 	dataSize  uint64
 	dirtyMD   map[string]struct{}
 	mu        sync.Mutex
+	// Set once a worker has picked the blob up (guarded by flusher.mu). The queue may hold a key more than once
+	// (abort leaves the key of the deleted blob enqueued), but a blob must be flushed by a single worker.
+	flushing bool
 }
 
 func newFlusher(mem *memory.Store, disk *disk.Store, log *zap.SugaredLogger, numWorkers int) *flusher {
@@ -190,9 +193,10 @@ func (f *flusher) nextToFlush() (b *blob, ok bool) {
 		key := f.queue[0]
 		f.queue = f.queue[1:]
 		b, ok := f.blobs[key]
-		if !ok {
+		if !ok || b.flushing {
 			continue
 		}
+		b.flushing = true
 		return b, true
 	}
 	return nil, false
